@@ -741,6 +741,17 @@ func TestVerifC13(t *testing.T) {
 		{do("create", "s1", "", ""), do("addsvc", "s1", "A", ""), do("addkey", "s1", "", ""), do("deact", "s1", "", "")},
 		{do("create", "s1", "", ""), do("addsvc", "s1", "A", ""), do("updsvc", "s1", "A", "B"), do("delsvc", "s1", "B", ""), do("delsvc", "s1", "C", "")},
 	}
+	// idempotent repeats: the second attempt writes a version whose content equals the latest one; did:nuts refuses a repeated
+	// deactivation, so that one FAILS at the publish step. Every cut for the short one, fault-free for the long one.
+	repeats := []c13Ev{do("create", "s1", "", ""), do("deact", "s1", "", ""), do("deact", "s1", "", "")}
+	longRepeats := []c13Ev{do("create", "s1", "", ""), do("addsvc", "s1", "A", ""), do("addsvc", "s1", "A", ""), do("delsvc", "s1", "A", ""), do("delsvc", "s1", "A", ""),
+		do("updsvc", "s1", "B", "B"), do("updsvc", "s1", "B", "B"), do("deact", "s1", "", ""), do("deact", "s1", "", ""), do("deact", "s1", "", "")}
+	for c, m := range c13Configs {
+		for _, v := range c13Variants(fmt.Sprintf("p%d", c), repeats, m, rng, true) {
+			exec(v)
+		}
+		exec(c13Variants(fmt.Sprintf("q%d", c), longRepeats, m, rng, false)[0])
+	}
 	for i, seq := range fixed {
 		for c, m := range c13Configs {
 			for _, v := range c13Variants(fmt.Sprintf("f%d.%d", i, c), seq, m, rng, true) {
